@@ -285,17 +285,22 @@ func (r *rewriter) run() {
 	}
 	r.entryPoints()
 	// pass 1: statements (select, go, send, range, comma-ok recv)
-	astutil.Apply(r.file, func(c *astutil.Cursor) bool {
+	// (post-order: a select nested in the body of another select's case is rewritten first, and
+	// the outer rewrite then copies the already rewritten body)
+	astutil.Apply(r.file, nil, func(c *astutil.Cursor) bool {
 		switch n := c.Node().(type) {
 		case *ast.LabeledStmt:
 			if sel, ok := n.Stmt.(*ast.SelectStmt); ok {
 				c.Replace(r.rewriteSelect(sel, n.Label))
 			}
 		case *ast.SelectStmt:
+			if _, labeled := c.Parent().(*ast.LabeledStmt); labeled {
+				return true // rewritten together with its label
+			}
 			c.Replace(r.rewriteSelect(n, nil))
 		}
 		return true
-	}, nil)
+	})
 	astutil.Apply(r.file, nil, func(c *astutil.Cursor) bool {
 		switch n := c.Node().(type) {
 		case *ast.GoStmt:
